@@ -1,4 +1,4 @@
-import PyramidModel.Lemmas.CacheEpoch
+import PyramidModel.Lemmas.CacheWindow
 import PyramidModel.Gen.C15
 /-!
 # C15 — view lookup does not depend on lookup history, caching or thread interleaving
@@ -7,7 +7,8 @@ Property theorems only.  Model: `Cache.lean` (a small-step machine: any number o
 `_find_views` call — and one registrar, over shared adapter registrations and a heap of cache dicts);
 spec: `scan r (cfg.slots q)` — the registered views of the query's slots in scan order, no cache, no history;
 helper lemmas: `Lemmas/Cache.lean` (invariant), `Lemmas/CacheRun.lean` (frames, registrar, fresh threads),
-`Lemmas/CacheEpoch.lean` (progress, two-epoch invariant); generated facts: `Gen/C15.lean` (`extract/c15.py`).
+`Lemmas/CacheEpoch.lean` (progress, two-epoch invariant), `Lemmas/CacheWindow.lean` (lookups overlapping a
+non-atomic registration: monotone mixes); generated facts: `Gen/C15.lean` (`extract/c15.py`).
 
 All statements hold for EVERY schedule (`List Lbl`, any length, any number of threads, any interleaving of
 lookup steps, registrar steps and spawns), every application (`cfg`: scan orders of any length) and every
@@ -42,6 +43,16 @@ what makes `Cfg.KeyFaithful` — the hypothesis of every theorem below — true 
 fc67717 the key was `(request_iface, context_iface, view_name)` and this obligation was false: fixed finding
 F-C15a, see `key_collision_witness`.) -/
 theorem source_key_covers_scan : Gen.C15.keyCoversScan = true := by decide
+
+/-- GENERATED OBLIGATION.  `register_view` turns a single view into a multiview by registering the multiview under
+`IMultiView` BEFORE it unregisters `IView` / `ISecuredView` (commit 7ef5d71; the old order is finding F-C15b,
+`old_order_window_witness`), and `_find_views` scans `IMultiView` last within a triad. -/
+theorem source_registers_multiview_first :
+    Gen.C15.multiviewFirst = true ∧ Gen.C15.multiViewScannedLast = true := by decide
+
+/-- the adapter mutations of a multiview conversion in the order the translator finds them in the source -/
+def sourceConversionMods (sM sV sS : Slot) (mv : View) : Mods :=
+  if Gen.C15.multiviewFirst then conversionMods sM sV sS mv else oldConversionMods sM sV sS mv
 
 /-- states the machine can reach from an application start (any registrations, empty cache, no threads) under
 the protocol found in the source -/
@@ -284,15 +295,14 @@ one of the same kind, any registration for another context/name), every returned
 new dict returns the spec scan of the before-state or of the after-state — the lookup linearises before or after
 the registration.
 
-PARTIAL: the property statement ("each request receives the response a single-threaded run would give") is about
-every registration and every pre-emption.  Not covered, and false for the view LIST in general:
-(1) a registration that changes two or more slots of the scan order (the conversion of a single view into a
-multiview: unregister IView/ISecuredView, register IMultiView) injected between those slots yields a list that
-is neither scan (`mixed_result_witness`) — still never cached in the current dict, and pyramid's `_call_view`
-answers such a list like the before- or after-state (checked on the implementation by the harness, not proved
-here: view calling is C03's model);
-(2) a registration that is itself pre-empted between two of its adapter mutations exposes an intermediate
-registration state that no single-threaded run has (`registrar_window_witness`, finding F-C15b). -/
+PARTIAL: this theorem is about ARBITRARY `mods` injected atomically; for those the one-position hypothesis cannot be
+dropped (`mixed_result_witness`).  For the two shapes of registration `register_view` really performs the hypothesis
+"atomic" IS dropped — the registrar may be pre-empted between any two adapter mutations:
+`single_mutation_registration_linearises` (first registration, replacement: before- or after-scan, full) and
+`multiview_conversion_window_partial` (conversion, register-first order: before-scan, after-scan or
+`[…, old view, multiview, …]`; the last list is answered like before or after by `_call_view`, which is C03's model
+and is checked here only on the implementation).  With the OLD order of the conversion a lookup inside the
+registration saw a state no single-threaded run has (`old_order_window_witness`, F-C15b, fixed by 7ef5d71). -/
 theorem concurrent_lookup_linearises_partial (cfg : Cfg) (hkf : cfg.KeyFaithful) (s0 : St) (hs : Reachable cfg s0)
     (hb : s0.busy = false) (mods : Mods) (sched : List Lbl) (hnb : ∀ l ∈ sched, l.isBegin = false)
     (s2 : St) (e2 : s2 = run sourceProto cfg (run sourceProto cfg s0 (atomicReg mods)) sched)
@@ -310,6 +320,92 @@ theorem concurrent_lookup_linearises_partial (cfg : Cfg) (hkf : cfg.KeyFaithful)
     have := h.1 hc
     rw [hr] at this
     exact this
+
+/-! ## lookups that overlap a registration which is NOT atomic (the registrar pre-empted anywhere) -/
+
+/-- **Monotone mix.**  From any reachable idle state let a registration `mods` begin and let ANYTHING be
+interleaved (lookup steps, spawns, the registrar's own modify steps one at a time, its finish, more lookups — no
+second registration).  Every returned lookup that holds the dict that was current when the registration began read
+slot `j` of its scan order from the registrations after the first `kⱼ` adapter mutations, with `k₁ ≤ k₂ ≤ …`
+(`MM`, Lemmas/CacheWindow.lean): it never sees a later mutation without all earlier ones at later slots. -/
+theorem registrar_window_monotone_mix (cfg : Cfg) (hkf : cfg.KeyFaithful) (s0 : St) (hs : Reachable cfg s0)
+    (hb : s0.busy = false) (mods : Mods) (sched : List Lbl) (hnb : ∀ l ∈ sched, l.isBegin = false)
+    (s : St) (e : s = run sourceProto cfg (step sourceProto cfg s0 (.begin mods)) sched)
+    (t : Thread) (ht : t ∈ s.threads) (c : Nat) (v : List View) (hpc : t.pc = .done c v) (hc : c = s0.cur) :
+    ∃ k, MM s0.regs mods (cfg.slots t.q) k v := by
+  have hinv0 := reachable_inv hkf hs
+  rw [source_protocol.2.1] at e
+  obtain ⟨k, _, h3⟩ := inv3_run hkf sched (inv3_after_begin hinv0 hb mods) hnb
+  rw [← e] at h3
+  have := h3.thr t ht (by rw [hpc]; simp [PC.ref?, hc])
+  simp only [MMOk, hpc] at this
+  obtain ⟨k', _, hmm⟩ := this
+  exact ⟨k', hmm⟩
+
+/-- **A registration of ONE adapter mutation linearises** (the first registration of a view and the replacement of
+a view — the `not want_multiview` branch of `register_view`): under any interleaving, every lookup holding the
+window's dict returns the before-scan or the after-scan.  (`Nodup`: a scan order never repeats a slot — it is a
+product of resolution orders.) -/
+theorem single_mutation_registration_linearises (cfg : Cfg) (hkf : cfg.KeyFaithful) (s0 : St) (hs : Reachable cfg s0)
+    (hb : s0.busy = false) (sl : Slot) (w : Option View) (sched : List Lbl) (hnb : ∀ l ∈ sched, l.isBegin = false)
+    (s : St) (e : s = run sourceProto cfg (step sourceProto cfg s0 (.begin [(sl, w)])) sched)
+    (t : Thread) (ht : t ∈ s.threads) (c : Nat) (v : List View) (hpc : t.pc = .done c v) (hc : c = s0.cur)
+    (hnd : (cfg.slots t.q).Nodup) :
+    v = scan s0.regs (cfg.slots t.q) ∨ v = scan (applyMods s0.regs [(sl, w)]) (cfg.slots t.q) := by
+  obtain ⟨k, hmm⟩ := registrar_window_monotone_mix cfg hkf s0 hs hb _ sched hnb s e t ht c v hpc hc
+  exact (MM_single s0.regs sl w hmm hnd).2
+
+/-- **The multiview conversion never exposes an empty triad — partial.**  `sM`, `sV`, `sS` = the `IMultiView`, `IView`,
+`ISecuredView` slots of one (classifier, request type, context type, name) triad; at most one single view is
+registered before; the scan order does not repeat slots and scans no single slot after `sM`
+(`source_registers_multiview_first`).  With the conversion's adapter mutations in the order found in the source,
+under ANY interleaving (the registrar pre-empted between any two mutations, lookups starting, pausing and finishing
+anywhere), every lookup holding the window's dict returns
+* the before-scan, or
+* the after-scan, or
+* the scan of the state in which BOTH are registered: the before-list with the multiview inserted at the `IMultiView`
+  slot, i.e. right after the old view (`both_scan_is_before_plus_multiview`) — `[…, old view, multiview, …]`.
+In particular the triad is never seen empty: no less specific view and no 404 can answer in its place.
+
+PARTIAL: the third list is not the list of a single-threaded run.  Its first callable for the triad is the
+before-state's old view, so a request the old view answers gets the before-state response; if the old view's
+predicates do not match, `_call_view` moves on to the multiview, which is the after-state's answer for that triad.
+That last step is C03's model (view calling), not proved here; the harness checks the response against
+before/after on every pre-empted case. -/
+theorem multiview_conversion_window_partial (cfg : Cfg) (hkf : cfg.KeyFaithful) (s0 : St) (hs : Reachable cfg s0)
+    (hb : s0.busy = false) (sM sV sS : Slot) (mv : View) (hMV : sM ≠ sV) (hMS : sM ≠ sS)
+    (hone : s0.regs sV = none ∨ s0.regs sS = none)
+    (sched : List Lbl) (hnb : ∀ l ∈ sched, l.isBegin = false)
+    (s : St) (e : s = run sourceProto cfg (step sourceProto cfg s0 (.begin (sourceConversionMods sM sV sS mv))) sched)
+    (t : Thread) (ht : t ∈ s.threads) (c : Nat) (v : List View) (hpc : t.pc = .done c v) (hc : c = s0.cur)
+    (hnd : (cfg.slots t.q).Nodup)
+    (hord : (cfg.slots t.q).Pairwise (fun a b => a = sM → b ≠ sV ∧ b ≠ sS)) :
+    v = scan s0.regs (cfg.slots t.q) ∨ v = scan (bothRegs s0.regs sM mv) (cfg.slots t.q) ∨
+      v = scan (applyMods s0.regs (sourceConversionMods sM sV sS mv)) (cfg.slots t.q) := by
+  have hsrc : sourceConversionMods sM sV sS mv = conversionMods sM sV sS mv := by
+    simp [sourceConversionMods, source_registers_multiview_first.1]
+  rw [hsrc] at e ⊢
+  obtain ⟨k, hmm⟩ := registrar_window_monotone_mix cfg hkf s0 hs hb _ sched hnb s e t ht c v hpc hc
+  exact MM_conv_three s0.regs sM sV sS mv hMV hMS hone hmm hnd hord
+
+/-- what the "both registered" list is: the before-list with the multiview inserted at the place of the
+`IMultiView` slot — everything the before-state finds earlier in the scan order (the old single view of the triad
+included) keeps its place in front of it. -/
+theorem both_scan_is_before_plus_multiview (r0 : Regs) (sM : Slot) (mv : View) (pre post : List Slot)
+    (h0 : r0 sM = none) (h1 : sM ∉ pre) (h2 : sM ∉ post) :
+    scan (bothRegs r0 sM mv) (pre ++ sM :: post) = scan r0 pre ++ mv :: scan r0 post ∧
+    scan r0 (pre ++ sM :: post) = scan r0 pre ++ scan r0 post := by
+  have hpre : scan (bothRegs r0 sM mv) pre = scan r0 pre :=
+    scan_congr _ _ _ (fun y hy => setReg_ne r0 sM y _ (fun e => h1 (e ▸ hy)))
+  have hpost : scan (bothRegs r0 sM mv) post = scan r0 post :=
+    scan_congr _ _ _ (fun y hy => setReg_ne r0 sM y _ (fun e => h2 (e ▸ hy)))
+  constructor
+  · rw [scan_append, hpre]
+    simp only [scan, List.filterMap_cons, bothRegs, setReg_self]
+    simp only [scan, bothRegs] at hpost
+    rw [hpost]
+  · rw [scan_append]
+    simp only [scan, List.filterMap_cons, h0]
 
 /-! ## concrete witnesses (`decide`): non-vacuity, necessity of every generated fact, the findings -/
 
@@ -350,20 +446,33 @@ theorem mixed_result_witness :
     (s.heap 0).get 0 = some [10, 25, 13] ∧ s.cur = 1 ∧ result? s 1 = some [25, 13] ∧
     (s.heap s.cur).get 0 = some [25, 13] := by decide
 
-/-- **Finding F-C15b** (negation of the full statement at a concrete witness; replayed on the implementation).
-Slots 0,1,2 = IView/ISecuredView/IMultiView of context class B, slot 3 = IView of its base class A.  The
-registration that turns B's view 10 into a multiview 25 is `[unregister 0, unregister 1, register 2 ↦ 25]`.  A lookup
-that runs entirely between the first and the last of these adapter mutations returns `[13]` — the base class's
-view alone: neither the before-scan `[10, 13]` nor the after-scan `[25, 13]`; its first element (the view that
-answers) is the wrong one.  No single-threaded run gives this.  (The stale `[13]` is cached in the dict that is
-current during the registration and disappears with the swap: at rest the cache is coherent again.) -/
-theorem registrar_window_witness :
-    let mods : Mods := [(0, none), (1, none), (2, some 25)]
+/-- **Regression fact about the OLD step order** (finding F-C15b, FIXED by 7ef5d71; the witness is replayed on the
+implementation, where it now passes).  Slots 0,1,2 = IView/ISecuredView/IMultiView of context class B, slot 3 =
+IView of its base class A.  With the conversion in the old order `[unregister 0, unregister 1, register 2 ↦ 25]` a
+lookup that runs entirely between the first and the last adapter mutation returns `[13]` — the base class's view
+alone: neither the before-scan `[10, 13]` nor the after-scan `[25, 13]`; the view that answers is the wrong one.
+This is why `source_registers_multiview_first` is needed. -/
+theorem old_order_window_witness :
+    let mods : Mods := oldConversionMods 2 0 1 25
     let s := run Proto.good wCfg (init wRegs)
       ([.begin mods, .modify, .spawn 0] ++ wLookup 0 ++ [.modify, .modify, .finish, .spawn 0] ++ wLookup 1)
     result? s 0 = some [13] ∧ scan wRegs (wCfg.slots 0) = [10, 13] ∧
     scan (applyMods wRegs mods) (wCfg.slots 0) = [25, 13] ∧
     (s.heap 0).get 0 = some [13] ∧ s.busy = false ∧ s.cur = 1 ∧ result? s 1 = some [25, 13] := by decide
+
+/-- … and with the order as it is now the same schedule, and the schedules pre-empting the registrar after each of its
+mutations, return `[10, 25, 13]` (old view first, then the multiview) or the after-scan — non-vacuity of
+`multiview_conversion_window_partial` (distinct slots, one single view registered, `IMultiView` scanned last). -/
+example :
+    let mods : Mods := conversionMods 2 0 1 25
+    (let s := run Proto.good wCfg (init wRegs) ([.begin mods, .modify, .spawn 0] ++ wLookup 0 ++ [.modify, .modify, .finish])
+     result? s 0 = some [10, 25, 13] ∧ scan (bothRegs wRegs 2 25) (wCfg.slots 0) = [10, 25, 13]) ∧
+    (let s := run Proto.good wCfg (init wRegs) ([.begin mods, .modify, .modify, .spawn 0] ++ wLookup 0 ++ [.modify, .finish])
+     result? s 0 = some [25, 13]) ∧
+    (let s := run Proto.good wCfg (init wRegs) ([.begin mods, .spawn 0] ++ wLookup 0 ++ [.modify, .modify, .modify, .finish])
+     result? s 0 = some [10, 13]) ∧
+    wRegs 1 = none ∧ (wCfg.slots 0).Nodup ∧
+    (wCfg.slots 0).Pairwise (fun a b => a = 2 → b ≠ 0 ∧ b ≠ 1) := by decide
 
 /-- an application whose cache key forgets part of the query: queries 0 (an ordinary view lookup) and 1 (an
 exception view lookup for the same request/context interfaces and name) share cache key 0 but scan different
